@@ -17,7 +17,7 @@ EXTRA = {
  'C02': " R3 also: the build-time steps of a meta block leave no entries on the reverse log (the log is cut back to the mark taken when the block opened). R4 also: run, next and the halt close a group that the host or a failed instruction left open on the log before they record a new step, so rnext undoes one step at a time.",
  'C04': " R4: no public method takes a position inside the backing buffer - a range bound computed from a position argument adds range.start (seek, substr like read, peek, split_at); R3 also: slice() returning None is an error, never a fallback to raw bytes.",
  'C06': " The cursor counts bits of the value: the move is bounded by input.len(), open-bitstr starts at the constant 0 (decided from the constant's initialiser), and a read advances the current offset by len() of the peeked slice with an overflow check.",
- 'C10': " Also: heap cells allocated while a source is built are a rolled-back resource; program code runs at build time only in a sealed meta context or after the source was accepted (user-defined immediate words are a listed known finding); a halted program's run-time stacks are dropped; a roll-back bound taken from the entry mark is the mark itself.",
+ 'C10': " Also: heap cells allocated while a source is built are a rolled-back resource; program code runs at build time only in a sealed meta context or after the source was accepted (user-defined immediate words are a listed known finding); a halted program's run-time stacks are dropped; a roll-back bound taken from the entry mark is the mark itself. The step function patches an instruction for good only when no source is being read; a State field that no roll-back restores is written after the word's last fallible step.",
  'C11': " Also: the floor of a meta context is the current depth (nested blocks inheriting the outer floor is a listed known finding, pinned by an existing test); nothing permutes the dictionary, so the purge keeps the order of surviving constants; an instruction that patches itself at run time (the `late` stub) does so for good only outside meta evaluation. A block nested in another emits only what it left itself. Late binding refuses a build-time (immediate) word before it picks an instruction, so build-time words are run by the builder only.",
  'C15': " Also: a user-defined immediate word returns to the end of the code, not into the half-built program, and the builder's ip is restored afterwards. A failed run under eval is left stopped at the failing instruction and continuable, as compile + run leaves it; a context never starts at the ip of the enclosing one (which is the instruction in flight when a host word calls eval).",
  'C16': " R3 (necessary conditions of print/read-back visible in the code): radix formats are applied to an unsigned magnitude; every radix the printer emits for integers has a literal form in the lexer; the collected digits reach from_str_radix only behind a test of that text (it accepts a sign of its own).",
@@ -68,7 +68,7 @@ CLAIMS = {
    technique="variant-pair table extraction from nested discriminant switches (eq vs cmp agreement) + receiver provenance of rpds *_mut calls + builder/boundary shape rules",
    text=("Static, structural part: agreement with an association-list/sequence model is value-level and not decided. Decided: which variant "
          "pairs equal? compares vs which the map/sort ordering orders, and whether the ordering falls back to a constant Equal (violated on "
-         "the pinned tree: two listed known findings, pinned by an existing test); every in-place rpds mutation has a function-local owned "
+         "the pinned tree for keys of different types: a listed known finding, pinned by an existing test; the same-type pairs were repaired); every in-place rpds mutation has a function-local owned "
          "receiver (collections are values); literal builders insert in source order before popping; relative_index has the exact "
          "boundaries |i| > len / i >= len. "
          "Also: each type is ordered by its own PartialOrd/Ord (the order its == belongs to); index arguments are converted without wrapping; length and slice of a string use one unit (characters)."),
@@ -121,7 +121,7 @@ CLAIMS = {
          "pass the width and Byteorder constant their name states to the reader/packer of their class, the name set is closed, the current-order "
          "wrappers and the generic int/uint/float(!) words forward width and current order; in emit the length added to output-length is len() of "
          "the very bit-string appended to output, the length update dominates the append and nothing else fallible sits between. Necessary "
-         "conditions of the round trip only."),
+         "conditions of the round trip only. Also: no error exit of a reader that scans the rest of the input depends on the shape of that rest alone (a field can be followed by any other)."),
    ref='§3 C07'),
  'C18': dict(
    technique="MIR sibling-agreement check with inter-procedural constant substitution + who-may-call + failure-path analysis (custom extractor, Python rules)",
